@@ -7,6 +7,7 @@ import MiniMoka.Unsync
 import MiniMoka.Sync
 import MiniMoka.Spec.Oracles
 import MiniMoka.Spec.OraclesExt
+import MiniMoka.Spec.OraclesC03W
 import MiniMoka.DequeHeap
 import MiniMoka.Config
 import MiniMoka.ConcR
@@ -299,7 +300,10 @@ def oracleFor (prop : String) (c : Cfg) (t : Spec.Trace) : Option Bool :=
   | "C07" => some (Spec.oracleC07 (kindOf c) t)
   | "C16" => some (Spec.oracleC16 (kindOf c) c.ttl c.tti t)
   | "C04" => some (Spec.oracleC04 (kindOf c) c.cap (Spec.noFreq t))
-  | "C13" => some (Spec.oracleC13 (kindOf c) c.cap c.ttl c.tti c.params.weigh t)
+  | "C13" => some (Spec.oracleC13 (kindOf c) c.cap c.ttl c.tti c.params.weigh t &&
+      (match kindOf c, c.cap with
+       | .sync, some cap => Spec.admitDanglingC13 cap c.ttl c.tti c.params.weigh t
+       | _, _ => true))
   | "C12" => some (Spec.oracleC12 (kindOf c) c.cap c.ttl c.tti c.params.weigh Gen.UNSYNC_EVICTION_BATCH_SIZE t &&
       (match kindOf c, c.cap with
        | .unsync, some cap => Spec.growthExpC12 cap c.ttl c.tti Gen.UNSYNC_EVICTION_BATCH_SIZE t
@@ -312,7 +316,10 @@ def oracleFor (prop : String) (c : Cfg) (t : Spec.Trace) : Option Bool :=
     -- next maintenance run, which presumes the read was queued by the get itself; a logical thread
     -- may still hold it then (ConcS_no_spurious_removal is the statement for those models).
     if c.kind == .concs then some true
-    else some (Spec.oracleC03 (kindOf c) c.cap c.ttl c.tti c.params.weigh (Spec.noFreq t))
+    else some (Spec.oracleC03 (kindOf c) c.cap c.ttl c.tti c.params.weigh (Spec.noFreq t) &&
+      (match kindOf c, c.cap with
+       | .sync, some cap => Spec.fitsC03SyncW cap c.ttl c.tti c.params.weigh (Spec.noFreq t)
+       | _, _ => true))
   | _ => none
 
 structure Case where
